@@ -146,8 +146,13 @@ def v2AmountInt (n : JNum) : Int := goIntOfF64 n.neg ((n.f64Abs).getD 0)
 def v2NumericAmount (n : JNum) : List Char := showInt (v2AmountInt n)
 
 def fmtAsset : Option JVal → List Char
-  | none | some .null => "%!s(<nil>)".toList
-  | some v => goFmt true v
+  | none => "%!s(<nil>)".toList
+  | some .null => "%!s(<nil>)".toList
+  | some (.str s) => s.toList
+  | some (.bool b) => goFmt true (.bool b)
+  | some (.num n) => goFmt true (.num n)
+  | some (.arr xs) => goFmt true (.arr xs)
+  | some (.obj kvs) => goFmt true (.obj kvs)
 
 /-- One variable of v2; `none` = the variable is silently dropped. -/
 def varV2 : JVal → Option String
